@@ -30,12 +30,20 @@ func MarshalLengthBytes(l int) []byte {
 }
 
 // GetLengthFromASN returns the length of a slice of ASN1 encoded bytes from the ASN1 length header it contains.
+// Zero is returned if the bytes do not hold a complete identifier octet and length header.
 func GetLengthFromASN(b []byte) int {
+	if len(b) < 2 {
+		return 0
+	}
 	if int(b[1]) <= 127 {
 		return int(b[1])
 	}
 	// The bytes that indicate the length
-	lb := b[2 : 2+int(b[1])-128]
+	n := int(b[1]) - 128
+	if 2+n > len(b) {
+		return 0
+	}
+	lb := b[2 : 2+n]
 	base := 1
 	l := 0
 	for i := len(lb) - 1; i >= 0; i-- {
@@ -46,7 +54,11 @@ func GetLengthFromASN(b []byte) int {
 }
 
 // GetNumberBytesInLengthHeader returns the number of bytes in the ASn1 header that indicate the length.
+// Zero is returned if the bytes do not hold an identifier octet followed by the first length octet.
 func GetNumberBytesInLengthHeader(b []byte) int {
+	if len(b) < 2 {
+		return 0
+	}
 	if int(b[1]) <= 127 {
 		return 1
 	}
